@@ -4,7 +4,7 @@ import os
 
 import vlib
 
-PROPS = ['Rangers.Props.C02', 'Rangers.Props.C02Facts', 'Rangers.Props.C02Live', 'Rangers.Props.C02Iter', 'Rangers.Props.C02Ndb']
+PROPS = ['Rangers.Props.C02', 'Rangers.Props.C02Facts', 'Rangers.Props.C02Live', 'Rangers.Props.C02Iter', 'Rangers.Props.C02Ndb', 'Rangers.Props.C02Laws']
 DRIVERS = ['C02']
 META = dict(
     level='proof',
